@@ -225,7 +225,7 @@ func textLayers(tier string) []Layer {
 func init() {
 	register(&Property{
 		ID: "C11", Level: "model_checking",
-		Rule: "a case is (value, producer); each is parsed back by every consumer at every receiver precision; all values distinct; every case is non-trivial (identity + digit-count oracle)",
+		Rule:        "a case is (value, producer); each is parsed back by every consumer at every receiver precision; all values distinct; every case is non-trivial (identity + digit-count oracle)",
 		Assumptions: []string{"'f' format only for |exponent| <= 70 (output length ∝ exponent)", "significant-digit extraction is done by the harness (sigDigits)"},
 		Layers:      textLayers,
 	})
